@@ -27,6 +27,7 @@ NO_ARG_TESTS = {"has_text", "has_number", "has_email", "has_date", "has_error", 
 
 WORDS = ["hello", "yes", "no", "red", "blue", "7", "a b", "x;y", "p|q", "back\\slash", "é", "ok,fine", "Q \"q\"", "two\nlines"]
 SIMPLE = ["alpha", "beta", "gamma", "delta", "one", "two", "3", "yes", "no"]
+MARKUP_WORDS = ["Tom & Jerry", "a<b", "Mr O'Neil", 'say "hi"', "x>y", "<b>bold</b>", "R&D"]
 
 
 def esc(s):
@@ -306,6 +307,10 @@ class Gen:
             name = "Cat " + r.choice(["Yes", "No", "Maybe", self.simple()])
             if self.wf and name in inf["names"]:
                 name = name + " " + str(len(inf["names"]))
+            if inf["names"] and r.random() < 0.3:
+                # two tests of one decision may share a result category (e.g. "yes" and "ok" both "Positive"):
+                # the category is the one already there, and the edge written last says where it leads
+                name = r.choice(sorted(inf["names"]))
             inf["names"].add(name)
         return edge(value=value, variable=var, ctype=ctype, name=name)
 
@@ -642,7 +647,9 @@ class SugarGen(Gen):
                         elems = [self.simple() for _ in range(n)]
                         cell = "{@ [" + ", ".join("'" + e + "'" for e in elems) + "] @}"
                     else:
-                        elems = [self.simple() for _ in range(n)]
+                        # list elements are data: characters that mean something to HTML/XML (& < > ' ") are
+                        # substituted as they are, like everything else
+                        elems = [r.choice(MARKUP_WORDS) if r.random() < 0.35 else self.simple() for _ in range(n)]
                         cell = list(elems)
                         if n == 0:
                             elems, cell = [], "{@ [] @}"
